@@ -232,6 +232,11 @@ func (m *Model) Apply(w *Window) {
 				s.Uncertain = false
 				s.Origin = "resumed"
 			}
+			for _, o2 := range w.Ops {
+				if op2 := &r.Plan.Ops[o2]; o2 != oi && op2.Kind == "connect" && op2.Pkt != nil && op2.Pkt.ClientID == op.Pkt.ClientID {
+					s.Uncertain = true // two connections racing for one client id: which one owns the session is not determined
+				}
+			}
 			if old != nil && old.Conn != nil && old.Conn != c {
 				// the new connection displaced a live one: the old connection's handler tears down while (or
 				// after) the new one is being established
